@@ -359,5 +359,61 @@ fn run(ctx: &mut Ctx) {
         }
     }
     let _ = std::fs::remove_file(&dbpath);
+    // the command line: `okane balance -X <target>` must fail exactly when the reference says a rate is missing - and
+    // always when the target is a commodity that occurs nowhere (it must never print the amounts unconverted)
+    let lpath = dir.join(format!("cli-{}.ledger", ctx.shard));
+    for len in 1..=2u32 {
+        for k in 0..n.pow(len) {
+            let mut idx = vec![];
+            let mut x = k;
+            for _ in 0..len {
+                idx.push((x % n) as usize);
+                x /= n;
+            }
+            let seq: Vec<&T> = idx.iter().map(|i| &alpha[*i]).collect();
+            for target in ["A", "B", "T", "ZZZ", "t"] {
+                for historical in [false, true] {
+                    if !ctx.next_is_mine() {
+                        ctx.skip_cases(1);
+                        continue;
+                    }
+                    let text = render(None, &seq, 1);
+                    ctx.case(
+                        || format!("$ okane balance -X {} --now 2024-01-21{} <file>\n{}", target, if historical { " --historical" } else { "" }, text),
+                        || {
+                            std::fs::write(&lpath, &text).expect("write ledger");
+                            let mut args: Vec<String> = ["okane", "balance", "-X", target, "--now", "2024-01-21"].iter().map(|x| x.to_string()).collect();
+                            if historical {
+                                args.push("--historical".into());
+                            }
+                            args.push(lpath.to_string_lossy().to_string());
+                            let out = super::c13::run_cli(&args);
+                            let ok = out.starts_with("EXIT 0");
+                            match NAMES.iter().position(|n| *n == target) {
+                                None => {
+                                    if ok {
+                                        Outcome::violation("cli/unknown-target-commodity-accepted", format!("-X {} names a commodity that occurs nowhere, yet the command succeeded:\n{}", target, out))
+                                    } else {
+                                        Outcome::pass("cli/unknown-target/fails")
+                                    }
+                                }
+                                Some(ti) => {
+                                    let strat = if historical { Strat::Historical } else { Strat::UpToDate(D3 + 1) };
+                                    match reference(&seq, 1, ti, strat, (None, None), &[]) {
+                                        Expect::Fail if ok => Outcome::violation("cli/converted-although-a-rate-is-missing", out),
+                                        Expect::Value(_) if !ok => Outcome::violation("cli/failed-although-all-rates-exist", out),
+                                        Expect::DontCare => Outcome::dont_care("cli/tie"),
+                                        Expect::Fail => Outcome::pass("cli/fails-without-rate"),
+                                        Expect::Value(_) => Outcome::pass("cli/converted"),
+                                    }
+                                }
+                            }
+                        },
+                    );
+                }
+            }
+        }
+    }
+    let _ = std::fs::remove_file(&lpath);
     let _: QMap = QMap::new();
 }
